@@ -4,6 +4,23 @@ ROOT = os.path.dirname(os.path.dirname(os.path.abspath(__file__)))
 ALL = ["C%02d" % i for i in range(1, 21)]
 
 CHECKS = {
+ "C04": dict(
+   technique="Lean 4 proof of a sound-and-complete stream monitor + the compiled monitor run on pymarkdown's real, un-abstracted token streams + independent direct oracle + plug-in stream comparison",
+   design_ref="DESIGN.md §6 C04",
+   text="Theorems over Verif.Model.WellFormed for ALL token lists: wfCheck_sound_complete (the one-pass stack automaton accepts iff the stream is a well-nested forest — every end token closes "
+        "the innermost open start, is named end-<its name> and its back-pointer is that start, nothing left open — and respects the class discipline: root/containers hold containers and leaf "
+        "blocks, leaf blocks and inline scopes hold only inline tokens, li only directly inside a list, special tokens only at the root, front-matter first, only the pragma token after "
+        "end-of-stream), first_offender (the reported index is the first offending one), prefix_open_stack / prefix_accepted (after every accepted prefix the monitor's stack is exactly the "
+        "still-open starts), drop_atom_preserves (removing point tokens cannot unbalance a stream), produce_wellNested / guarded_accepted (any producer writing only through push/pop/leaf, resp. "
+        "monitor-guarded, primitives is accepted whatever it decides: transfer lemma for the reference producer). Tie: the compiled monitor decides the real stream (token_name, token class, "
+        "EndMarkdownToken, requires_end_token, identity of start_markdown_token as an index) of every document of the pools: all one-line PREFIX x BODY documents, all two-line documents (core and "
+        "full alphabets), all three-line PREFIX3 x BODY3 documents, every repo parser-test source and rule test document, and a subset with front-matter / strikethrough / task-list / "
+        "extended-autolink extensions on (thorough: about 607k streams). Oracles: the statement read off the token objects by an independent recursive-descent reader; the monitor's stack tops vs "
+        "the still-open starts computed from the definition; the stream delivered to a recording plug-in's next_token in a real scan == the parser's stream minus the pragma token.",
+   note="Partial: no theorem about pymarkdown's own token_stack / token_document manipulation — the universal claim for the implementation rests on the monitored pools; documents that fail to "
+        "tokenize or hang are C01's subject (skipped, counted; note that pymarkdown's inline pass asserts part of the discipline itself, so some nesting bugs surface as tokenization failures). "
+        "li is checked to stand directly inside A list, not that it is the right one. Trusted: Lean kernel; the serialiser in tools/props/c04.py (li mapped to a point token in the driver). "
+        "Finding: F-BLANK-IN-HTML (BLANK leaf token nested inside html-block)."),
  "C07": dict(
    technique="Lean 4 proof over a faithful rule-engine model + engine correspondence through probe plug-ins + direct oracle sweep",
    design_ref="DESIGN.md §6 C07",
